@@ -12,6 +12,9 @@ Driver for the rescaling models: `lake env lean --run Driver/Rescale.lean < case
       -> `<id> mid .. | lo .. | hi ..`  or `<id> assert`          (piecewise_scale_posterior before approximate_gamma_iqr)
   case <id> / op recover / num .. / rbreaks .. / rtimes .. / times .. / fixed .. / end
       -> `<id> ob .. | kb .. | vb ..`   or `<id> assert`          (breakpoint recovery in ExpectationPropagation.rescale)
+  case <id> / op iter / num .. / times / y / span / edges / fixed 0|1.. / maxint n / iters k / medges p c .. / mnodes u .. / end
+      -> `<id> t .. | mt ..`            or `<id> assert`          (rescale_tree_sequence: node times after k iterations and the
+                                                                   mutation times; medges = edge (p c) per mutation, `-1 -1` above a root)
 `<id> bad-op` for malformed input.
 -/
 import TsdateVerif.Model.Rescale
@@ -40,8 +43,14 @@ inductive Reply where
   | bad
 
 section
-variable {α : Type} [Inhabited α] [Add α] [Sub α] [Mul α] [Div α] [OfNat α 0] [OfNat α 1]
+variable {α : Type} [Inhabited α] [Add α] [Sub α] [Mul α] [Div α] [OfNat α 0] [OfNat α 1] [OfNat α 2]
   [LE α] [DecidableLE α] [LT α] [DecidableLT α]
+
+def pairUpOpt : List Int → Option (List (Option Edge))
+  | [] => some []
+  | p :: c :: rest => (pairUpOpt rest).map (fun es =>
+      (if p < 0 ∨ c < 0 then none else some { p := p.toNat, c := c.toNat }) :: es)
+  | _ => none
 
 def vals (N : Num α) (blk : List (List String)) (key : String) : Option (List α) :=
   (field blk key).bind (mapAll N.parse)
@@ -92,6 +101,21 @@ def runOp (N : Num α) (blk : List (List String)) (op : String) : Reply :=
         let pts := (al.zip (be.zip (ql.zip qh))).map (fun (a, b, l, h) => posteriorPoints ob rb a b l h)
         .ok (" | ".intercalate [render N "mid" (pts.map (·.1)), render N "lo" (pts.map (·.2.1)),
           render N "hi" (pts.map (·.2.2))])
+    | _, _, _, _, _, _ => .bad
+  | "iter" =>
+    match treeInput N blk, (field blk "fixed").bind parseBools,
+        ((field blk "maxint").bind List.head?).bind String.toNat?,
+        ((field blk "iters").bind List.head?).bind String.toNat?,
+        ((field blk "medges").bind (mapAll String.toInt?)).bind pairUpOpt,
+        (field blk "mnodes").bind (mapAll String.toNat?) with
+    | some (times, lik, es), some fx, some m, some k, some medges, some mnodes =>
+      if fx.length ≠ times.length ∨ medges.length ≠ mnodes.length then .bad
+      else if m = 0 then .assertFail else
+      match rescaleIter N.cast lik es fx m k times with
+      | none => .assertFail
+      | some t =>
+        .ok (" | ".intercalate [render N "t" t,
+          render N "mt" ((medges.zip mnodes).map (fun (e, u) => mutationTime t e u))])
     | _, _, _, _, _, _ => .bad
   | "recover" =>
     match vals N blk "rbreaks", vals N blk "rtimes", vals N blk "times", (field blk "fixed").bind parseBools with
